@@ -60,11 +60,13 @@ def _run_chunk(binp, tmp, tag, lines, timeout):
     res, crashes = {}, {}
     todo = list(lines)
     rnd = 0
+    solo = False    # one process per script
     while todo:
         rnd += 1
         fin = os.path.join(tmp, "ls-%s-%d.in" % (tag, rnd))
         fout = os.path.join(tmp, "ls-%s-%d.out" % (tag, rnd))
-        open(fin, "w").write("\n".join(todo) + "\n")
+        batch, later = (todo[:1], todo[1:]) if solo else (todo, [])
+        open(fin, "w").write("\n".join(batch) + "\n")
         if os.path.exists(fout):
             os.remove(fout)
         env = dict(os.environ, LOCKSTEP_IN=fin, LOCKSTEP_OUT=fout)
@@ -85,11 +87,22 @@ def _run_chunk(binp, tmp, tag, lines, timeout):
                     res[idx] = rest.split()
                     done.add(idx)
         if rc == 0:
-            break
+            if not later:
+                break
+            todo = later
+            continue
         # crash: attribute to the script that had started but not finished
         if started is not None and started not in done:
-            crashes[started] = err
             pos = next(i for i, l in enumerate(todo) if l.split(" ", 1)[0] == started)
+            if not solo and "from outside bubble" in err:
+                # An artefact of the harness, not of the script: every script runs in its own synctest bubble but all
+                # share one process, and the library kept a timer or channel of an earlier bubble in package-level
+                # state. From here on every script gets a process of its own (one bubble per process), starting
+                # with the one that tripped.
+                solo = True
+                todo = todo[pos:]
+                continue
+            crashes[started] = err
             todo = todo[pos + 1:]
         else:
             crashes["?"] = err
